@@ -11,6 +11,42 @@ CHECKS = {
         note="AEAD treated as perfect; bounds: 4-5 datagrams, 4-5 ticks, 2 slots at design level, all 4 slots in random histories; tick = CryptoCore::every_second",
         technique="TLA+ spec NonceWindow + TLC exhaustive; transition-cover replay on real CryptoCore; TLC trace validation",
         design_ref="DESIGN.md 3.1, 6 (C03)"),
+    "C04": dict(
+        text="TLC checks the counter algebra of Nonce.tla exhaustively for radix 4 (increment = +1 with carry, strictly increasing, a counter beyond the "
+             "transmitted digits cannot be opened) and validates, with the real radix 256, Nonce::increment on every byte-carry boundary pattern, real seals "
+             "placed around the 56-bit limit, and the seal log (key fingerprint, 12-byte nonce) of whole connection lifetimes with handshakes by either or both sides, "
+             "payload and rotations: per (end, key) strictly increasing, the two ends in different halves, a new key starts a fresh sequence.",
+        note="key identity = fingerprint hook; unpredictability only as pairwise-distinct starts; halves over all handshake schedules are decided in Handshake.tla (C05 check)",
+        technique="TLA+ spec Nonce (+NonceWindow, Handshake) + TLC; seal-log hook; TLC trace validation",
+        design_ref="DESIGN.md 3.1, 6 (C04)"),
+    "C07": dict(
+        text="TLC explores Rotation.tla exhaustively (message ids <= 9, loss/duplication/reordering/delay, any relative timing) for SealKeyHeldByPeer, the reliable "
+             "sub-specification for freshness and RotationRecover for 'loss only postpones'; every transition of the ids<=5 graph is executed on real PeerCrypto pairs after "
+             "a real handshake (120 every_second calls per cycle, real sealed rotation datagrams) and TLC validates these runs plus per-second random fault runs: "
+             "emission per cycle, key id in use, identical key material at the peer (fingerprints), every probe opens, key change within the bound.",
+        note="ECDH/AEAD perfect; fingerprint hook; rotation interval 120 every_second calls; recovery bound 6 intervals after a lossy phase",
+        technique="TLA+ spec Rotation + TLC exhaustive; transition-cover replay on real PeerCrypto pairs; TLC trace validation",
+        design_ref="DESIGN.md 3.4, 6 (C07)"),
+    "C16": dict(
+        text="Codec.tla states encode/decode/normalise for node-info, handshake and rotation messages at part level; TLC checks round trip, unknown-part skipping and totality "
+             "over all short part sequences; the real codecs are driven through generated messages with unknown parts spliced at every position (re-signed for handshake "
+             "messages) and through truncation / substitution / random / stale-tail families under panic capture; TLC judges every recorded event with the spec operators.",
+        note="byte-level layout stays in the harness; allocation bounded by construction (u16/u8 length fields), wall time per decode measured",
+        technique="TLA+ reference operators (Codec) + TLC; generated round trips and decoder families on real code; TLC trace validation",
+        design_ref="DESIGN.md 3.7, 6 (C16); docs/C16.md"),
+    "C19": dict(
+        text="Dissect.tla gives reference dissectors written from the header layouts; TLC checks totality/positions on a small universe and judges every recorded call of the real "
+             "Frame::parse / Packet::parse: all lengths 0..64 with random and position-tagged contents, ethertype and tag-control sweeps, nested tags, all version nibbles around the limits.",
+        note="VLAN id 0 (folded or not) and 0x8100 frames of 16-17 bytes are don't-cares of C19; quick tier sweeps ethertypes at a stride, thorough covers all 65536",
+        technique="TLA+ reference operators (Dissect) + TLC; input families on real dissectors; TLC trace validation",
+        design_ref="DESIGN.md 3.7, 6 (C19); docs/C19.md"),
+    "C20": dict(
+        text="ConfigMerge.tla states the overlay rule per option kind (scalar, optional, flag, accumulating list, per-key map), the file round trip and the netmask rule; TLC enumerates all "
+             "presence combinations per option and pairwise; the real merge_file/merge_args/into_config_file are driven through structs, real YAML and real argument vectors with a distinct "
+             "symbolic value per (option, source), parse_ip_netmask over prefixes 0..40 and malformed strings; TLC judges every recorded event.",
+        note="35-option table derived from config.rs and vpncloud.adoc; lists compared as bags; '/0' must give mask 0.0.0.0 or an error, never a panic",
+        technique="TLA+ spec ConfigMerge + TLC; symbolic-value merge runs on real code; TLC trace validation",
+        design_ref="DESIGN.md 3.7, 6 (C20); docs/C20.md"),
 }
 
 PENDING = {}
